@@ -973,6 +973,7 @@ class System(StoredHw, Datetime, Logbook, SystemBase):
 
         _schema: dict[str, Any]
         zone_idxs = list(SCH_TCS(schema).get(SZ_ZONES) or {})  # incl. zones with no attrs
+        has_dhw = bool(SCH_TCS(schema).get(SZ_DHW_SYSTEM))  # incl. a DHW with no known devices
         schema = shrink(SCH_TCS(schema))
 
         if schema.get(SZ_SYSTEM) and (
@@ -980,8 +981,8 @@ class System(StoredHw, Datetime, Logbook, SystemBase):
         ):
             self._app_cntrl = self._gwy.get_device(dev_id, parent=self, child_id=FC)  # type: ignore[assignment]
 
-        if _schema := (schema.get(SZ_DHW_SYSTEM)):  # type: ignore[assignment]
-            self.get_dhw_zone(**_schema)  # self._dhw = ...
+        if has_dhw:
+            self.get_dhw_zone(**schema.get(SZ_DHW_SYSTEM, {}))  # self._dhw = ...
 
         if not isinstance(self, MultiZone):
             return
